@@ -270,11 +270,14 @@ theorem storeFld_frame (t : Token) (F : Flds) (st : St) :
     (storeFld t F st).curIdx = st.curIdx ∧ (storeFld t F st).prevIdx = st.prevIdx := by
   cases t <;> simp [storeFld]
 
+theorem storeFld_offNeg (t : Token) (F : Flds) (st : St) : (storeFld t F st).offNeg = st.offNeg := by
+  cases t <;> rfl
+
 /-- the end of a numeric field at its first separator: the field is stored, the next item becomes current -/
 theorem step_sep1 (O : Oracles) (f : Format) (s : List Nat) (len a idx : Nat) (st : St) (F : Flds)
     (it it2 : Item) (pre post : List Nat)
     (hs : s = pre ++ (numText F it ++ post)) (hpre : Ascii pre) (hF : F.InRange)
-    (h7 : isNum7 it.token = true) (h72 : isNum7 it2.token = true)
+    (h7 : isNum7 it.token = true) (hoh2 : it2.token ≠ .OffsetHours)
     (hcur : st.cur = it) (htok : st.tok = it.token) (hprev : st.prevIdx = pre.length)
     (hidx : idx = pre.length + (numText F it).length)
     (hsep : it.sep1 = some a) (ha : isNum a = false)
@@ -285,7 +288,6 @@ theorem step_sep1 (O : Oracles) (f : Format) (s : List Nat) (len a idx : Nat) (s
               with prevIdx := idx + 1 } := by
   obtain ⟨hl2, hdig, _, hstore⟩ := numText_spec F hF it h7
   obtain ⟨hnum, hoh, hts⟩ := num7_facts it.token h7
-  obtain ⟨_, hoh2, _⟩ := num7_facts it2.token h72
   have hasc : Ascii (numText F it) := fun c hc => by have := hdig c hc; unfold isDigitC at this; omega
   have htr : trigger len a idx st = true := by unfold trigger; simp [htok, hnum, ha]
   unfold stepChar
@@ -427,7 +429,7 @@ theorem item_mid (O : Oracles) (f : Format) (F : Flds) (hF : F.InRange) (s : Lis
     have hslen : pre.length + (numText F it).length < s.length := by
       rw [hs]; simp only [List.length_append, List.length_cons]; omega
     have hstep := step_sep1 O f s s.length a (pre.length + (numText F it).length) st F it it2 pre ([a] ++ tail)
-      (by rw [hs]; simp [List.append_assoc]) hpre hF h7i h7j hc1 hc2 hprev rfl hsa hna hnext hlen h16
+      (by rw [hs]; simp [List.append_assoc]) hpre hF h7i (num7_facts _ h7j).2.1 hc1 hc2 hprev rfl hsa hna hnext hlen h16
     refine ⟨{ storeFld it.token F { st with prev := it, curIdx := st.curIdx + 1, cur := it2, tok := it2.token }
         with prevIdx := pre.length + (numText F it).length + 1 }, ?_, ?_, ?_, ?_, ?_, ?_, ?_⟩
     · rw [List.append_assoc, scan_digits O f s s.length _ _ pre.length st hnumc hdig hslen]
@@ -453,7 +455,7 @@ theorem item_mid (O : Oracles) (f : Format) (F : Flds) (hF : F.InRange) (s : Lis
     have hslen : pre.length + (numText F it).length < s.length := by
       rw [hs]; simp only [List.length_append, List.length_cons]; omega
     have hstep := step_sep1 O f s s.length a (pre.length + (numText F it).length) st F it it2 pre ([a, b] ++ tail)
-      (by rw [hs]; simp [List.append_assoc]) hpre hF h7i h7j hc1 hc2 hprev rfl hsa hna hnext hlen h16
+      (by rw [hs]; simp [List.append_assoc]) hpre hF h7i (num7_facts _ h7j).2.1 hc1 hc2 hprev rfl hsa hna hnext hlen h16
     have hstep2 := step_sep2 O f s s.length b (pre.length + (numText F it).length + 1)
       { storeFld it.token F { st with prev := it, curIdx := st.curIdx + 1, cur := it2, tok := it2.token }
         with prevIdx := pre.length + (numText F it).length + 1 }
@@ -708,6 +710,283 @@ theorem parse_back_num7 (O : Oracles) (f : Format) (e : Ep) (hutc : e.ts = TS.UT
     simp only
     rw [add_zero_canon e.dur hd]
 
+/-! ### a final `%T` (UTC) -/
+
+/-- the text `UTC` -/
+def utcText : List Nat := [85, 84, 67]
+
+/-- the text of an item of a format "numeric items, then `%T`" for a UTC epoch -/
+def textNT (F : Flds) (it : Item) : List Nat := if it.token = .Timescale then utcText else numText F it
+
+/-- the final `%T` item on the text `UTC`: nothing is read (UTC is the default), the loop ends -/
+theorem loop_T (O : Oracles) (f : Format) (s pre : List Nat) (st : St) (itT : Item)
+    (hs : s = pre ++ utcText) (hcur : st.cur = itT) (htok : st.tok = .Timescale) (hsep : itT.sep1 = none)
+    (hprev : st.prevIdx ≤ pre.length) :
+    parseLoop O f s s.length utcText pre.length st = .ok st := by
+  have hlen : s.length = pre.length + 3 := by rw [hs]; simp [utcText]
+  have hnt : ∀ c idx, idx + 1 ≠ s.length → trigger s.length c idx st = false := by
+    intro c idx hi
+    unfold trigger Item.sepIs
+    rw [htok, hcur, hsep]
+    simp [Token.isNumeric, hi]
+  have htr : trigger s.length 67 (pre.length + 1 + 1) st = true := by
+    unfold trigger
+    have : pre.length + 1 + 1 + 1 = s.length := by omega
+    simp [this]
+  unfold utcText
+  simp only [parseLoop, stepChar]
+  rw [hnt 85 pre.length (by omega)]
+  simp only [Bool.false_eq_true, if_false]
+  rw [hnt 84 (pre.length + 1) (by omega)]
+  simp only [Bool.false_eq_true, if_false]
+  rw [if_pos htr]
+  unfold stepBody
+  rw [if_neg (by intro h; rw [htok] at h; exact absurd h.1 (by decide)), if_neg (by intro h; omega), if_pos htok]
+  unfold stepTimescale
+  rw [if_neg (by intro h; exact h (by omega))]
+
+/-- a non-final numeric item with ONE separator, followed by the final `%T` -/
+theorem item_mid_T (O : Oracles) (f : Format) (F : Flds) (hF : F.InRange) (s : List Nat) (h16 : f.items.length ≤ 16)
+    (it itT : Item) (done : List Item) (pre tail : List Nat) (st : St)
+    (hf : f.items = done ++ [it, itT])
+    (h7i : isNum7 it.token = true) (hT : itT.token = .Timescale)
+    (a : Nat) (hsa : it.sep1 = some a) (hs2 : it.sep2 = none) (hna : isNum a = false) (ha128 : a < 128)
+    (hs : s = pre ++ (numText F it ++ [a] ++ tail)) (hpre : Ascii pre)
+    (hci : st.curIdx = done.length) (hc1 : st.cur = it) (hc2 : st.tok = it.token) (hprev : st.prevIdx = pre.length) :
+    ∃ st1, parseLoop O f s s.length (numText F it ++ [a] ++ tail) pre.length st
+        = parseLoop O f s s.length tail (pre ++ numText F it ++ [a]).length st1 ∧
+      st1.data = (storeFld it.token F st).data ∧ st1.cur = itT ∧ st1.tok = .Timescale ∧
+      st1.prevIdx = (pre ++ numText F it ++ [a]).length := by
+  obtain ⟨hl2, hdig, _, _⟩ := numText_spec F hF it h7i
+  have hnext : f.items[st.curIdx + 1]? = some itT := by rw [hf, hci]; simp
+  have hlen : st.curIdx + 1 < f.items.length := by rw [hf, hci]; simp
+  have hnumc : st.tok.isNumeric = true := by rw [hc2]; exact (num7_facts _ h7i).1
+  have hslen : pre.length + (numText F it).length < s.length := by
+    rw [hs]; simp only [List.length_append, List.length_cons]; omega
+  have hstep := step_sep1 O f s s.length a (pre.length + (numText F it).length) st F it itT pre ([a] ++ tail)
+    (by rw [hs]; simp [List.append_assoc]) hpre hF h7i (by rw [hT]; decide) hc1 hc2 hprev rfl hsa hna hnext hlen h16
+  refine ⟨{ storeFld it.token F { st with prev := it, curIdx := st.curIdx + 1, cur := itT, tok := itT.token }
+        with prevIdx := pre.length + (numText F it).length + 1 }, ?_, ?_, ?_, ?_, ?_⟩
+  · rw [List.append_assoc, scan_digits O f s s.length _ _ pre.length st hnumc hdig hslen]
+    simp only [List.cons_append, List.nil_append, parseLoop]
+    rw [hstep]
+    simp only
+    have e1 : pre.length + (numText F it).length + 1 = (pre ++ numText F it ++ [a]).length := by simp; omega
+    rw [e1]
+  · apply storeFld_data; rfl
+  · simp only; rw [(storeFld_frame _ _ _).2.1]
+  · simp only; rw [(storeFld_frame _ _ _).1]; exact hT
+  · simp; omega
+
+/-- the loop over "numeric items, then `%T`" -/
+theorem loop_numsT (O : Oracles) (f : Format) (F : Flds) (hF : F.InRange) (s : List Nat)
+    (h16 : f.items.length ≤ 16) (itT : Item) (hT : itT.token = .Timescale) (hTsep : itT.sep1 = none) :
+    ∀ (nums done : List Item) (pre : List Nat) (st : St),
+      f.items = done ++ (nums ++ [itT]) → nums ≠ [] → (∀ it ∈ nums, isNum7 it.token = true) →
+      (∀ it ∈ nums, GoodSep it) →
+      (∀ it, nums.getLast? = some it → it.sep2 = none) →
+      s = pre ++ concatItems (textNT F) (nums ++ [itT]) → Ascii pre →
+      st.curIdx = done.length → (∀ it, nums.head? = some it → st.cur = it ∧ st.tok = it.token) →
+      st.prevIdx = pre.length →
+      ∃ st', parseLoop O f s s.length (concatItems (textNT F) (nums ++ [itT])) pre.length st = .ok st' ∧
+        st'.data = (foldFlds F nums st).data
+  | [], _, _, _, _, hne, _, _, _, _, _, _, _, _ => absurd rfl hne
+  | [it], done, pre, st, hf, _, h7, hgood, hlast, hs, hpre, hci, hcur, hprev => by
+    have h7i := h7 it (by simp)
+    obtain ⟨hc1, hc2⟩ := hcur it rfl
+    obtain ⟨a, hsa, hna, ha128, _⟩ := hgood it (by simp)
+    have hs2 := hlast it rfl
+    have hti : textNT F it = numText F it := by
+      unfold textNT; rw [if_neg (by intro h; exact (num7_facts _ h7i).2.2 h)]
+    have htT : textNT F itT = utcText := by unfold textNT; rw [if_pos hT]
+    have hst : it.sepText = [a] := by unfold Item.sepText; rw [hsa, hs2]; rfl
+    simp only [List.cons_append, List.nil_append, concatItems, hti, htT, hst] at hs ⊢
+    obtain ⟨st1, hl1, hd1, hcur1, htok1, hprev1⟩ :=
+      item_mid_T O f F hF s h16 it itT done pre utcText st (by rw [hf]; simp) h7i hT a hsa hs2 hna ha128 hs hpre
+        hci hc1 hc2 hprev
+    rw [hl1, loop_T O f s (pre ++ numText F it ++ [a]) st1 itT (by rw [hs]; simp [List.append_assoc]) hcur1 htok1
+      hTsep (by omega)]
+    exact ⟨st1, rfl, by rw [hd1]; rfl⟩
+  | it :: it2 :: rest, done, pre, st, hf, _, h7, hgood, hlast, hs, hpre, hci, hcur, hprev => by
+    obtain ⟨hc1, hc2⟩ := hcur it rfl
+    have h7i := h7 it (by simp)
+    have h7j := h7 it2 (by simp)
+    have hti : textNT F it = numText F it := by
+      unfold textNT; rw [if_neg (by intro h; exact (num7_facts _ h7i).2.2 h)]
+    have hcc : concatItems (textNT F) (it :: it2 :: rest ++ [itT]) =
+        numText F it ++ it.sepText ++ concatItems (textNT F) (it2 :: rest ++ [itT]) := by
+      simp only [List.cons_append, concatItems, hti]
+    rw [hcc] at hs ⊢
+    obtain ⟨st1, hl1, hd1, hci1, hcur1, htok1, hprev1, hasc1⟩ :=
+      item_mid O f F hF s h16 it it2 done (rest ++ [itT]) pre (concatItems (textNT F) (it2 :: rest ++ [itT])) st
+        (by rw [hf]; simp) h7i h7j (hgood it (by simp)) hs hpre hci hc1 hc2 hprev
+    obtain ⟨st', hl, hd⟩ := loop_numsT O f F hF s h16 itT hT hTsep (it2 :: rest) (done ++ [it])
+      (pre ++ numText F it ++ it.sepText) st1 (by rw [hf]; simp) (by simp)
+      (fun i hi => h7 i (List.mem_cons_of_mem _ hi)) (fun i hi => hgood i (List.mem_cons_of_mem _ hi))
+      (fun i hi => hlast i (by simpa [List.getLast?_cons_cons] using hi))
+      (by rw [hs]; simp [List.append_assoc]) hasc1 (by rw [hci1]; simp)
+      (by intro i hi; simp at hi; subst hi; exact ⟨hcur1, htok1⟩) hprev1
+    rw [hl1, hl]
+    refine ⟨st', rfl, ?_⟩
+    rw [hd]
+    show (foldFlds F (it2 :: rest) st1).data = (foldFlds F (it2 :: rest) (storeFld it.token F st)).data
+    exact foldFlds_data F _ _ _ hd1
+
+theorem concatItemsT_shape (F : Flds) (hF : F.InRange) (itT : Item) (hT : itT.token = .Timescale) :
+    ∀ (nums : List Item), nums ≠ [] → (∀ it ∈ nums, isNum7 it.token = true) → (∀ it ∈ nums, GoodSep it) →
+    Ascii (concatItems (textNT F) (nums ++ [itT])) ∧
+    (∃ c post, isDigitC c ∧ concatItems (textNT F) (nums ++ [itT]) = c :: post) ∧
+    (∃ pre, concatItems (textNT F) (nums ++ [itT]) = pre ++ [67])
+  | [], h, _, _ => absurd rfl h
+  | [it], _, h7, hgood => by
+    have h7i := h7 it (by simp)
+    obtain ⟨hl2, hdig, _, _⟩ := numText_spec F hF it h7i
+    have hti : textNT F it = numText F it := by
+      unfold textNT; rw [if_neg (by intro h; exact (num7_facts _ h7i).2.2 h)]
+    have htT : textNT F itT = utcText := by unfold textNT; rw [if_pos hT]
+    obtain ⟨a, hsa, _, ha128, hsep2⟩ := hgood it (by simp)
+    have hsepA : Ascii it.sepText := by
+      intro x hx
+      unfold Item.sepText at hx
+      rcases hsep2 with hs2 | ⟨b, hs2, _, hb128⟩
+      · rw [hsa, hs2] at hx; simp at hx; omega
+      · rw [hsa, hs2] at hx; simp at hx; omega
+    simp only [List.cons_append, List.nil_append, concatItems, hti, htT]
+    refine ⟨?_, ?_, ?_⟩
+    · intro x hx
+      simp only [List.mem_append] at hx
+      rcases hx with (hx | hx) | hx
+      · exact numText_ascii F hF it h7i x hx
+      · exact hsepA x hx
+      · unfold utcText at hx; simp at hx; omega
+    · cases hD : numText F it with
+      | nil => rw [hD] at hl2; simp at hl2
+      | cons c0 post => exact ⟨c0, post ++ (it.sepText ++ utcText), hdig c0 (by rw [hD]; simp), by simp⟩
+    · exact ⟨numText F it ++ it.sepText ++ [85, 84], by simp [utcText, List.append_assoc]⟩
+  | it :: it2 :: r, _, h7, hgood => by
+    have h7i := h7 it (by simp)
+    obtain ⟨hl2, hdig, _, _⟩ := numText_spec F hF it h7i
+    have hti : textNT F it = numText F it := by
+      unfold textNT; rw [if_neg (by intro h; exact (num7_facts _ h7i).2.2 h)]
+    obtain ⟨ih1, _, ⟨pre, hlast⟩⟩ := concatItemsT_shape F hF itT hT (it2 :: r) (by simp)
+      (fun i hi => h7 i (List.mem_cons_of_mem _ hi)) (fun i hi => hgood i (List.mem_cons_of_mem _ hi))
+    obtain ⟨a, hsa, _, ha128, hsep2⟩ := hgood it (by simp)
+    have hsepA : Ascii it.sepText := by
+      intro x hx
+      unfold Item.sepText at hx
+      rcases hsep2 with hs2 | ⟨b, hs2, _, hb128⟩
+      · rw [hsa, hs2] at hx; simp at hx; omega
+      · rw [hsa, hs2] at hx; simp at hx; omega
+    have hcc : concatItems (textNT F) (it :: it2 :: r ++ [itT]) =
+        numText F it ++ it.sepText ++ concatItems (textNT F) (it2 :: r ++ [itT]) := by
+      simp only [List.cons_append, concatItems, hti]
+    rw [hcc]
+    refine ⟨?_, ?_, ?_⟩
+    · intro x hx
+      simp only [List.mem_append] at hx
+      rcases hx with (hx | hx) | hx
+      · exact numText_ascii F hF it h7i x hx
+      · exact hsepA x hx
+      · exact ih1 x hx
+    · cases hD : numText F it with
+      | nil => rw [hD] at hl2; simp at hl2
+      | cons c0 post =>
+        exact ⟨c0, post ++ (it.sepText ++ concatItems (textNT F) (it2 :: r ++ [itT])), hdig c0 (by rw [hD]; simp), by simp⟩
+    · exact ⟨numText F it ++ it.sepText ++ pre, by rw [hlast]; simp [List.append_assoc]⟩
+
+/-- PARSE BACK (numeric class with a final `%T`).  As `parse_back_num7`, the format ending with a
+    non-optional `%T` item; the numeric item before it has exactly one separator. -/
+theorem parse_back_numT (O : Oracles) (f : Format) (e : Ep) (hutc : e.ts = TS.UTC)
+    (hd : e.dur.Canon) (hr : Cal.InCal e.dur.val)
+    (hy : ∀ y mo dd h mi s ns, Cal.computeGregorian e.dur e.ts = .ok (y, mo, dd, h, mi, s, ns) → 0 ≤ y ∧ y ≤ 9999)
+    (nums : List Item) (itT : Item) (hitems : f.items = nums ++ [itT]) (hne : nums ≠ []) (h16 : f.items.length ≤ 16)
+    (hT : itT.token = .Timescale) (hTsep : itT.sep1 = none) (hTopt : itT.optional = false)
+    (h7 : ∀ it ∈ nums, isNum7 it.token = true ∧ it.optional = false)
+    (hgood : ∀ it ∈ nums, GoodSep it)
+    (hlast : ∀ it, nums.getLast? = some it → it.sep2 = none)
+    (hfull : ∀ t, isNum7 t = true → t ∈ nums.map (·.token)) :
+    ∃ text, formatterOutput O f e none = .ok text ∧ formatParse O f text = .ok e := by
+  obtain ⟨y, mo, dd, h, mi, s, ns, hg, hmfg⟩ := Cal.from_compute e.dur e.ts hd hr
+  obtain ⟨y', mo', dd', h', mi', s', ns', hg', hval, _, _, a1, a2, a3, a4, a5, a6, a7, a8, _⟩ :=
+    Cal.computeGregorian_spec e.dur e.ts hd hr
+  rw [hg] at hg'
+  simp only [Res.ok.injEq, Prod.mk.injEq] at hg'
+  obtain ⟨rfl, rfl, rfl, rfl, rfl, rfl, rfl⟩ := hg'
+  have hyr := hy y mo dd h mi s ns hg
+  have hv' := (Cal.validDate_iff _).mp hval
+  simp only at hv'
+  have hml := Cal.monthLen_range y mo hv'.1 hv'.2.1
+  have hF : (Flds.mk y mo dd h mi s ns).InRange := by
+    unfold Flds.InRange; simp only; omega
+  obtain ⟨_, _, _, _, _, _, _, hdoyex⟩ := dayOfYearInt_spec e hd hr
+  obtain ⟨doy, hdoy⟩ : ∃ doy, dayOfYearInt e = .ok doy := ⟨_, hdoyex.2⟩
+  have hz : offsetText Dur.ZERO = .ok [43, 48, 48, 58, 48, 48] := by decide +kernel
+  have hfne : f.items ≠ [] := by rw [hitems]; simp
+  have htext := formatterFmt_concat O f e Dur.ZERO y mo dd h mi s ns _ doy hfne
+    (fun it hi => by
+      rw [hitems] at hi
+      rcases List.mem_append.mp hi with hi | hi
+      · exact ⟨num7_supported _ (h7 it hi).1, (h7 it hi).2⟩
+      · simp at hi; subst hi; exact ⟨by rw [hT]; rfl, hTopt⟩) hg hz hdoy
+  have hcongr := concatItems_congr (fun it => tokBytes it.token y mo dd h mi s ns e [43, 48, 48, 58, 48, 48] doy)
+    (textNT ⟨y, mo, dd, h, mi, s, ns⟩) f.items
+    (fun it hi => by
+      rw [hitems] at hi
+      rcases List.mem_append.mp hi with hi | hi
+      · have h7i := (h7 it hi).1
+        simp only [textNT]
+        rw [if_neg (by intro h; exact (num7_facts _ h7i).2.2 h)]
+        exact tokBytes_num7 it.token h7i _ _ _ _ _ _ _ _ _ _ _ _ _
+      · simp at hi; subst hi
+        simp only [textNT]
+        rw [if_pos hT, hT]
+        simp only [tokBytes, hutc]
+        decide)
+  rw [hcongr, hitems] at htext
+  refine ⟨concatItems (textNT ⟨y, mo, dd, h, mi, s, ns⟩) (nums ++ [itT]), by rw [← hitems] at htext ⊢; exact htext, ?_⟩
+  obtain ⟨hasc, ⟨c0, post, hc0, hfirst⟩, ⟨pre, hlastc⟩⟩ :=
+    concatItemsT_shape ⟨y, mo, dd, h, mi, s, ns⟩ hF itT hT nums hne (fun it hi => (h7 it hi).1) hgood
+  have htrim : trim (concatItems (textNT ⟨y, mo, dd, h, mi, s, ns⟩) (nums ++ [itT])) =
+      concatItems (textNT ⟨y, mo, dd, h, mi, s, ns⟩) (nums ++ [itT]) := by
+    apply trim_id
+    · intro c hc; rw [hfirst] at hc; simp at hc; subst hc; exact digit_not_ws _ hc0
+    · intro c hc; rw [hlastc] at hc; simp at hc; subst hc; decide +kernel
+  cases hnums : nums with
+  | nil => exact absurd hnums hne
+  | cons it0 rest =>
+    unfold formatParse
+    rw [hitems, hnums]
+    simp only [List.cons_append]
+    rw [← List.cons_append, ← hnums, htrim, byteLen_ascii _ hasc]
+    obtain ⟨st', hl, hdat⟩ := loop_numsT O f ⟨y, mo, dd, h, mi, s, ns⟩ hF
+      (concatItems (textNT ⟨y, mo, dd, h, mi, s, ns⟩) (nums ++ [itT])) h16 itT hT hTsep nums [] [] (St.init it0)
+      (by simp [hitems]) hne (fun it hi => (h7 it hi).1) hgood hlast (by simp) (by intro c hc; simp at hc) rfl
+      (by intro i hi; rw [hnums] at hi; simp at hi; subst hi; exact ⟨rfl, rfl⟩) rfl
+    simp only [List.length_nil] at hl
+    rw [hl]
+    simp only
+    rw [foldFlds_data_eq] at hdat
+    rw [if_pos (hfull .Year rfl), if_pos (hfull .Month rfl), if_pos (hfull .Day rfl), if_pos (hfull .Hour rfl),
+      if_pos (hfull .Minute rfl), if_pos (hfull .Second rfl), if_pos (hfull .Subsecond rfl)] at hdat
+    have hfin : finish st' = finish ⟨y, mo, dd, h, mi, s, ns, 0, 0, TS.UTC, false, none, none, 0, 0, it0, it0.token, it0⟩ :=
+      finish_data _ _ (by rw [hdat]; rfl)
+    rw [hfin]
+    unfold finish buildEpoch
+    simp only
+    have u1 : toU8 mo = some mo := by unfold toU8; rw [if_pos (by omega)]
+    have u2 : toU8 dd = some dd := by unfold toU8; rw [if_pos (by omega)]
+    have u3 : toU8 h = some h := by unfold toU8; rw [if_pos (by omega)]
+    have u4 : toU8 mi = some mi := by unfold toU8; rw [if_pos (by omega)]
+    have u5 : toU8 s = some s := by unfold toU8; rw [if_pos (by omega)]
+    have u6 : toU32 ns = some ns := by unfold toU32; rw [if_pos (by omega)]
+    rw [u1, u2, u3, u4, u5, u6]
+    simp only
+    rw [← hutc, hmfg]
+    simp only [Bool.false_eq_true, if_false]
+    rw [tz_zero]
+    simp only
+    rw [add_zero_canon e.dur hd]
+
 /-! ### the class as a decidable predicate -/
 
 def goodSepB (it : Item) : Bool :=
@@ -758,6 +1037,643 @@ theorem parse_back_numClass (O : Oracles) (f : Format) (e : Ep) (hc : numClass f
     have : t ∈ [Token.Year, .Month, .Day, .Hour, .Minute, .Second, .Subsecond] := by
       cases t <;> simp [isNum7] at ht <;> simp
     have := h5 t this
+    simp only [List.any_eq_true, beq_iff_eq] at this
+    obtain ⟨it, hi, he⟩ := this
+    exact List.mem_map.mpr ⟨it, hi, he⟩
+
+/-- the numeric class with a final `%T`: the items but the last form a numeric list as in `numClass` (every one of
+    them followed by separators, the last of them by exactly one), the last item is a non-optional `%T`
+    without separator -/
+def numTClass (f : Format) : Bool :=
+  decide (2 ≤ f.items.length) && decide (f.items.length ≤ 16) &&
+  (match f.items.getLast? with
+   | some l => l.token == .Timescale && l.sep1.isNone && !l.optional
+   | none => false) &&
+  f.items.dropLast.all (fun it => isNum7 it.token && !it.optional && goodSepB it) &&
+  (match f.items.dropLast.getLast? with
+   | some l => l.sep2.isNone
+   | none => false) &&
+  [Token.Year, .Month, .Day, .Hour, .Minute, .Second, .Subsecond].all
+    (fun t => f.items.dropLast.any (fun it => it.token == t))
+
+theorem parse_back_numTClass (O : Oracles) (f : Format) (e : Ep) (hc : numTClass f = true) (hutc : e.ts = TS.UTC)
+    (hd : e.dur.Canon) (hr : Cal.InCal e.dur.val)
+    (hy : ∀ y mo dd h mi s ns, Cal.computeGregorian e.dur e.ts = .ok (y, mo, dd, h, mi, s, ns) → 0 ≤ y ∧ y ≤ 9999) :
+    ∃ text, formatterOutput O f e none = .ok text ∧ formatParse O f text = .ok e := by
+  unfold numTClass at hc
+  simp only [Bool.and_eq_true, List.all_eq_true, decide_eq_true_eq] at hc
+  obtain ⟨⟨⟨⟨⟨h1, h2⟩, h3⟩, h4⟩, h5⟩, h6⟩ := hc
+  have hne : f.items ≠ [] := by intro h; rw [h] at h1; simp at h1
+  obtain ⟨nums, itT, hitems⟩ := exists_snoc f.items hne
+  have hdl : f.items.dropLast = nums := by rw [hitems]; simp
+  have hgl : f.items.getLast? = some itT := by rw [hitems]; simp
+  rw [hgl] at h3
+  simp only [Bool.and_eq_true, beq_iff_eq, Option.isNone_iff_eq_none, Bool.not_eq_true'] at h3
+  rw [hdl] at h4 h5 h6
+  have hnne : nums ≠ [] := by
+    intro h; rw [hitems, h] at h1; simp at h1
+  apply parse_back_numT O f e hutc hd hr hy nums itT hitems hnne h2 h3.1.1 h3.1.2 h3.2
+  · intro it hi
+    have := h4 it hi
+    exact ⟨this.1.1, by simpa using this.1.2⟩
+  · intro it hi
+    exact goodSepB_iff it (h4 it hi).2
+  · intro it hi
+    rw [hi] at h5
+    simpa using h5
+  · intro t ht
+    have : t ∈ [Token.Year, .Month, .Day, .Hour, .Minute, .Second, .Subsecond] := by
+      cases t <;> simp [isNum7] at ht <;> simp
+    have := h6 t this
+    simp only [List.any_eq_true, beq_iff_eq] at this
+    obtain ⟨it, hi, he⟩ := this
+    exact List.mem_map.mpr ⟨it, hi, he⟩
+
+/-! ### a final `%z` directly after the last numeric item (the layout of RFC 3339) -/
+
+/-- the offset text: sign, two hour digits, `:`, two minute digits, with the values they stand for -/
+theorem offsetText_shape (off : Dur) (hc : off.Canon) (hm : off.val % 60000000000 = 0)
+    (hr : -86400000000000 < off.val ∧ off.val < 86400000000000) :
+    ∃ hh mm : Int, 0 ≤ hh ∧ hh ≤ 23 ∧ 0 ≤ mm ∧ mm ≤ 59 ∧
+      (if off.val < 0 then -off.val else off.val) = hh * 3600000000000 + mm * 60000000000 ∧
+      offsetText off = .ok ((if off.val < 0 then [45] else [43]) ++ Cal.fmtInt 2 hh ++ [58] ++ Cal.fmtInt 2 mm) := by
+  unfold offsetText
+  rw [Cal.decompose_spec off hc]
+  have hsg := Cal.signum_neg_iff off hc
+  generalize off.val = v at *
+  by_cases hneg : v < 0
+  · have hs : ¬ (Dur.signum off ≥ 0) := by have := hsg.mpr hneg; omega
+    have e1 : ¬ ((-v) / 86400000000000 > 0) := by omega
+    have e2 : ¬ ((-v) % 86400000000000 % 3600000000000 % 60000000000 / 1000000000 > 0) := by omega
+    refine ⟨(-v) % 86400000000000 / 3600000000000, (-v) % 86400000000000 % 3600000000000 / 60000000000,
+      by omega, by omega, by omega, by omega, ?_, ?_⟩
+    · rw [if_pos hneg]; omega
+    · simp only [if_pos hneg, if_neg hs, if_neg e1, if_neg e2, List.append_nil]
+  · have hs : Dur.signum off ≥ 0 := by
+      have : ¬ (Dur.signum off < 0) := fun h => hneg (hsg.mp h)
+      omega
+    have e1 : ¬ (v / 86400000000000 > 0) := by omega
+    have e2 : ¬ (v % 86400000000000 % 3600000000000 % 60000000000 / 1000000000 > 0) := by omega
+    refine ⟨v % 86400000000000 / 3600000000000, v % 86400000000000 % 3600000000000 / 60000000000,
+      by omega, by omega, by omega, by omega, ?_, ?_⟩
+    · rw [if_neg hneg]; omega
+    · simp only [if_neg hneg, if_pos hs, if_neg e1, if_neg e2, List.append_nil]
+
+theorem two_digits (v : Int) (h : 0 ≤ v ∧ v ≤ 99) :
+    ∃ d1 d2, Cal.fmtInt 2 v = [d1, d2] ∧ isDigitC d1 ∧ isDigitC d2 ∧ lexI32 [d1, d2] = some v := by
+  obtain ⟨a, b, c⟩ := fmtInt_digits 2 v h.1 (by simp; omega) (by omega) (by omega)
+  match hf : Cal.fmtInt 2 v, a with
+  | [d1, d2], _ =>
+    rw [hf] at b c
+    exact ⟨d1, d2, rfl, b d1 (by simp), b d2 (by simp), c⟩
+
+/-- the end of the last numeric field at the sign of the offset (no separator in between): the field is
+    stored, `%z` becomes current and the sign is read from this character -/
+theorem step_sign (O : Oracles) (f : Format) (s : List Nat) (len sg idx : Nat) (st : St) (F : Flds)
+    (it itZ : Item) (pre post : List Nat)
+    (hs : s = pre ++ (numText F it ++ ([sg] ++ post))) (hpre : Ascii pre) (hF : F.InRange)
+    (h7 : isNum7 it.token = true) (hZ : itZ.token = .OffsetHours)
+    (hcur : st.cur = it) (htok : st.tok = it.token) (hprev : st.prevIdx = pre.length)
+    (hidx : idx = pre.length + (numText F it).length)
+    (hsep : it.sep1 = none) (hsg : sg = 43 ∨ sg = 45)
+    (hnext : f.items[st.curIdx + 1]? = some itZ) (hlen : st.curIdx + 1 < f.items.length)
+    (h16 : f.items.length ≤ 16) :
+    stepChar O f s len sg idx st =
+      .cont { storeFld it.token F { st with prev := it, curIdx := st.curIdx + 1, cur := itZ, tok := .OffsetHours }
+              with offNeg := st.offNeg || decide (sg = 45), prevIdx := idx + 1 } := by
+  obtain ⟨hl2, hdig, _, hstore⟩ := numText_spec F hF it h7
+  obtain ⟨hnum, hoh, hts⟩ := num7_facts it.token h7
+  have hasc : Ascii (numText F it) := fun c hc => by have := hdig c hc; unfold isDigitC at this; omega
+  have hsn : isNum sg = false := by rcases hsg with h | h <;> subst h <;> decide +kernel
+  have hs128 : sg < 128 := by omega
+  have htr : trigger len sg idx st = true := by unfold trigger; simp [htok, hnum, hsn]
+  unfold stepChar
+  rw [if_pos htr]
+  unfold stepBody
+  rw [if_neg (by intro h; exact hoh (htok ▸ h.1)), if_neg (by intro h; omega), if_neg (by rw [htok]; exact hts),
+    if_neg (by intro h; omega), if_neg (by intro h; exact hoh (htok ▸ h.1))]
+  unfold stepField
+  rw [if_pos (Or.inr hsn)]
+  have hsnot : (st.cur.sepIsNot sg && (st.cur.sep2.isNone || st.cur.sep2IsNot sg)) = false := by
+    unfold Item.sepIsNot; rw [hcur, hsep]; simp
+  rw [hsnot]
+  simp only [Bool.false_eq_true, if_false]
+  rw [if_neg (by omega), if_neg (by have : MAX_TOKENS = 16 := rfl; omega), hnext]
+  simp only
+  unfold afterEnd
+  simp only
+  rw [hprev, hidx, hs, slice_ascii pre (numText F it) ([sg] ++ post) hpre hasc]
+  simp only
+  have hn : pre.length + (numText F it).length - pre.length = (numText F it).length := by omega
+  rw [hn, htok, hstore]
+  simp only [Bool.false_eq_true, if_false]
+  rw [if_pos (by rw [(storeFld_frame _ _ _).1]; exact hZ)]
+  -- the sign character
+  have hsl : slice (pre ++ (numText F it ++ ([sg] ++ post))) (pre.length + (numText F it).length)
+      (pre.length + (numText F it).length + 1) = some [sg] := by
+    have := slice_ascii (pre ++ numText F it) [sg] post
+      (by intro c hc; rcases List.mem_append.mp hc with h | h; exact hpre c h; exact hasc c h)
+      (by intro c hc; simp at hc; omega)
+    simpa [List.append_assoc] using this
+  rw [hsl]
+  simp only
+  rw [(storeFld_frame _ _ _).2.2.1, storeFld_offNeg]
+  simp only
+  rw [hcur, hsep, hZ]
+  have : (decide ([sg] = [45])) = decide (sg = 45) := by simp
+  simp only [Option.isNone_none, Bool.true_and, this]
+  first | rfl | (cases it.token <;> rfl)
+
+/-- `:` inside the offset: the hours are stored, the minutes follow within the same item -/
+theorem step_colon (O : Oracles) (f : Format) (s : List Nat) (len idx : Nat) (st : St)
+    (A post : List Nat) (h1 h2 : Nat) (hh : Int)
+    (hs : s = A ++ ([h1, h2] ++ post)) (hA : Ascii A) (hd1 : isDigitC h1) (hd2 : isDigitC h2)
+    (hlex : lexI32 [h1, h2] = some hh) (hhr : 0 ≤ hh ∧ hh ≤ 23)
+    (htok : st.tok = .OffsetHours) (hprev : st.prevIdx = A.length) (hidx : idx = A.length + 2) :
+    stepChar O f s len 58 idx st = .cont { st with oh := hh, tok := .OffsetMinutes, prevIdx := idx + 1 } := by
+  have hn58 : isNum 58 = false := by decide +kernel
+  have htr : trigger len 58 idx st = true := by unfold trigger; simp [htok, Token.isNumeric, hn58]
+  unfold stepChar
+  rw [if_pos htr]
+  unfold stepBody
+  rw [if_neg (by intro h; omega), if_neg (by intro h; omega), if_neg (by rw [htok]; decide),
+    if_neg (by intro h; omega), if_pos ⟨htok, rfl⟩]
+  unfold stepHours
+  have hsl : slice s st.prevIdx idx = some [h1, h2] := by
+    rw [hprev, hidx, hs]
+    exact slice_ascii A [h1, h2] post hA (by intro c hc; simp at hc; unfold isDigitC at hd1 hd2; omega)
+  rw [hsl]
+  simp only
+  rw [hlex]
+  simp only
+  rw [if_neg (by simp [Token.valueOk]; omega)]
+
+/-- the last character of the text, the second minute digit of the offset: the minutes are stored -/
+theorem step_last_min (O : Oracles) (f : Format) (s : List Nat) (len idx : Nat) (st : St)
+    (A : List Nat) (m1 m2 : Nat) (mm : Int)
+    (hs : s = A ++ ([m1, m2] ++ [])) (hA : Ascii A) (hd1 : isDigitC m1) (hd2 : isDigitC m2)
+    (hlex : lexI32 [m1, m2] = some mm) (hmr : 0 ≤ mm ∧ mm ≤ 59)
+    (htok : st.tok = .OffsetMinutes) (hprev : st.prevIdx = A.length) (hidx : idx = A.length + 1)
+    (hlen : len = A.length + 2) :
+    stepChar O f s len m2 idx st = .cont { st with om := mm, prev := st.cur, prevIdx := idx + 1 } := by
+  have hcn := digit_isNum m2 hd2
+  have htr : trigger len m2 idx st = true := by
+    unfold trigger
+    have : idx + 1 = len := by omega
+    simp [this]
+  unfold stepChar
+  rw [if_pos htr]
+  unfold stepBody
+  rw [if_neg (by intro h; rw [htok] at h; exact absurd h.1 (by decide)), if_neg (by intro h; omega),
+    if_neg (by rw [htok]; decide), if_neg (by intro h; unfold isDigitC at hd2; omega),
+    if_neg (by intro h; rw [htok] at h; exact absurd h.1 (by decide))]
+  unfold stepField
+  have hno : ¬ (idx + 1 ≠ len ∨ isNum m2 = false) := by
+    intro h
+    rcases h with h | h
+    · omega
+    · rw [hcn] at h; exact absurd h (by decide)
+  rw [if_neg hno]
+  unfold afterEnd
+  simp only
+  have hsl : slice s st.prevIdx (idx + 1) = some [m1, m2] := by
+    rw [hprev, hidx, hs]
+    have := slice_ascii A [m1, m2] [] hA (by intro c hc; simp at hc; unfold isDigitC at hd1 hd2; omega)
+    simpa using this
+  rw [hsl]
+  simp only
+  rw [htok]
+  have hst : ∀ (n : Nat) (st0 : St), store O .OffsetMinutes [m1, m2] n st0 = .cont { st0 with om := mm } := by
+    intro n st0
+    have : Token.OffsetMinutes.valueOk mm = true := by simp [Token.valueOk]; omega
+    simp [store, hlex, this, Token.gregorianPosition, St.setPos]
+  rw [hst]
+  simp only [Bool.false_eq_true, if_false]
+  rw [if_neg (by decide)]
+
+/-- `step_sign` with the resulting state described by its properties -/
+theorem step_sign' (O : Oracles) (f : Format) (s : List Nat) (len sg idx : Nat) (st : St) (F : Flds)
+    (it itZ : Item) (pre post : List Nat)
+    (hs : s = pre ++ (numText F it ++ ([sg] ++ post))) (hpre : Ascii pre) (hF : F.InRange)
+    (h7 : isNum7 it.token = true) (hZ : itZ.token = .OffsetHours)
+    (hcur : st.cur = it) (htok : st.tok = it.token) (hprev : st.prevIdx = pre.length)
+    (hidx : idx = pre.length + (numText F it).length)
+    (hsep : it.sep1 = none) (hsg : sg = 43 ∨ sg = 45)
+    (hnext : f.items[st.curIdx + 1]? = some itZ) (hlen : st.curIdx + 1 < f.items.length)
+    (h16 : f.items.length ≤ 16) :
+    ∃ st1, stepChar O f s len sg idx st = .cont st1 ∧ st1.tok = .OffsetHours ∧ st1.prevIdx = idx + 1 ∧
+      st1.data = ({ storeFld it.token F st with offNeg := st.offNeg || decide (sg = 45) } : St).data := by
+  refine ⟨_, step_sign O f s len sg idx st F it itZ pre post hs hpre hF h7 hZ hcur htok hprev hidx hsep hsg hnext hlen h16,
+    ?_, rfl, ?_⟩
+  · simp only; rw [(storeFld_frame _ _ _).1]
+  · cases it.token <;> rfl
+
+/-- the last numeric item followed directly by the offset `±HH:MM` of the final `%z` -/
+theorem tail_Z (O : Oracles) (f : Format) (F : Flds) (hF : F.InRange) (s : List Nat) (h16 : f.items.length ≤ 16)
+    (itL itZ : Item) (done : List Item) (pre : List Nat) (st : St) (sg h1 h2 m1 m2 : Nat) (hh mm : Int)
+    (hf : f.items = done ++ [itL, itZ]) (h7 : isNum7 itL.token = true) (hLsep : itL.sep1 = none)
+    (hZ : itZ.token = .OffsetHours)
+    (hs : s = pre ++ (numText F itL ++ [sg, h1, h2, 58, m1, m2])) (hpre : Ascii pre)
+    (hsg : sg = 43 ∨ sg = 45) (hd1 : isDigitC h1) (hd2 : isDigitC h2) (hd3 : isDigitC m1) (hd4 : isDigitC m2)
+    (hlh : lexI32 [h1, h2] = some hh) (hhr : 0 ≤ hh ∧ hh ≤ 23)
+    (hlm : lexI32 [m1, m2] = some mm) (hmr : 0 ≤ mm ∧ mm ≤ 59)
+    (hci : st.curIdx = done.length) (hc1 : st.cur = itL) (hc2 : st.tok = itL.token) (hprev : st.prevIdx = pre.length) :
+    ∃ st', parseLoop O f s s.length (numText F itL ++ [sg, h1, h2, 58, m1, m2]) pre.length st = .ok st' ∧
+      st'.data = ({ storeFld itL.token F st with oh := hh, om := mm, offNeg := st.offNeg || decide (sg = 45) } : St).data := by
+  obtain ⟨hl2, hdig, _, _⟩ := numText_spec F hF itL h7
+  have hasc := numText_ascii F hF itL h7
+  have hnext : f.items[st.curIdx + 1]? = some itZ := by rw [hf, hci]; simp
+  have hlen : st.curIdx + 1 < f.items.length := by rw [hf, hci]; simp
+  have hnumc : st.tok.isNumeric = true := by rw [hc2]; exact (num7_facts _ h7).1
+  have hslen : s.length = pre.length + (numText F itL).length + 6 := by
+    rw [hs]; simp only [List.length_append, List.length_cons, List.length_nil]; omega
+  have hdA : ∀ c, isDigitC c → c < 128 := fun c h => by unfold isDigitC at h; omega
+  -- 1. the digits of the last numeric field
+  rw [scan_digits O f s s.length _ _ pre.length st hnumc hdig (by omega)]
+  -- 2. the sign
+  obtain ⟨st1, hst1, ht1, hp1, hdat1⟩ := step_sign' O f s s.length sg (pre.length + (numText F itL).length) st F itL itZ
+    pre [h1, h2, 58, m1, m2] (by rw [hs]; simp) hpre hF h7 hZ hc1 hc2 hprev rfl hLsep hsg hnext hlen h16
+  rw [parseLoop, hst1]
+  simp only
+  -- 3. the hour digits
+  have hsc2 := scan_digits O f s s.length [h1, h2] [58, m1, m2] (pre.length + (numText F itL).length + 1) st1
+    (by rw [ht1]; rfl) (by intro c hc; simp at hc; rcases hc with h | h <;> subst h <;> assumption)
+    (by simp; omega)
+  simp only [List.cons_append, List.nil_append] at hsc2
+  rw [hsc2]
+  -- 4. the colon
+  have hst2 := step_colon O f s s.length (pre.length + (numText F itL).length + 1 + 2) st1
+    (pre ++ numText F itL ++ [sg]) [58, m1, m2] h1 h2 hh (by rw [hs]; simp)
+    (by intro c hc; simp at hc; rcases hc with h | h | h; exact hpre c h; exact hasc c h; omega)
+    hd1 hd2 hlh hhr ht1 (by rw [hp1]; simp; omega) (by simp; omega)
+  simp only [List.length_cons, List.length_nil]
+  rw [parseLoop, hst2]
+  simp only
+  -- 5. the first minute digit
+  have hsc3 := scan_digits O f s s.length [m1] [m2] (pre.length + (numText F itL).length + 1 + 2 + 1)
+    { st1 with oh := hh, tok := .OffsetMinutes, prevIdx := pre.length + (numText F itL).length + 1 + 2 + 1 }
+    (by rfl) (by intro c hc; simp at hc; subst hc; exact hd3) (by simp; omega)
+  simp only [List.cons_append, List.nil_append] at hsc3
+  rw [hsc3]
+  -- 6. the last minute digit
+  have hst3 := step_last_min O f s s.length (pre.length + (numText F itL).length + 1 + 2 + 1 + 1)
+    { st1 with oh := hh, tok := .OffsetMinutes, prevIdx := pre.length + (numText F itL).length + 1 + 2 + 1 }
+    (pre ++ numText F itL ++ [sg, h1, h2, 58]) m1 m2 mm (by rw [hs]; simp)
+    (by intro c hc; simp at hc
+        rcases hc with h | h | h | h | h | h
+        · exact hpre c h
+        · exact hasc c h
+        · omega
+        · subst h; exact hdA _ hd1
+        · subst h; exact hdA _ hd2
+        · omega)
+    hd3 hd4 hlm hmr rfl (by simp; omega) (by simp; omega) (by simp; omega)
+  simp only [List.length_cons, List.length_nil]
+  rw [parseLoop, hst3]
+  simp only [parseLoop]
+  refine ⟨_, rfl, ?_⟩
+  simp only [St.data, Prod.mk.injEq] at hdat1 ⊢
+  obtain ⟨e1, e2, e3, e4, e5, e6, e7, e8, e9, e10, e11, e12, e13⟩ := hdat1
+  refine ⟨e1, e2, e3, e4, e5, e6, e7, trivial, trivial, e10, e11, e12, e13⟩
+
+/-- the text of "numeric items with separators, a last numeric item, then the offset" -/
+def textZ (F : Flds) (itL : Item) (zs : List Nat) : List Item → List Nat
+  | [] => numText F itL ++ zs
+  | it :: r => numText F it ++ it.sepText ++ textZ F itL zs r
+
+/-- the data of the final state: the stored fields, the hours and minutes of the offset, its sign -/
+def zData (d : Int × Int × Int × Int × Int × Int × Int × Int × Int × TS × Bool × Option Dur × Option Int)
+    (hh mm : Int) (neg : Bool) :
+    Int × Int × Int × Int × Int × Int × Int × Int × Int × TS × Bool × Option Dur × Option Int :=
+  (d.1, d.2.1, d.2.2.1, d.2.2.2.1, d.2.2.2.2.1, d.2.2.2.2.2.1, d.2.2.2.2.2.2.1, hh, mm,
+   d.2.2.2.2.2.2.2.2.2.1, neg, d.2.2.2.2.2.2.2.2.2.2.2.1, d.2.2.2.2.2.2.2.2.2.2.2.2)
+
+theorem loop_numsZ (O : Oracles) (f : Format) (F : Flds) (hF : F.InRange) (s : List Nat)
+    (h16 : f.items.length ≤ 16) (itL itZ : Item) (sg h1 h2 m1 m2 : Nat) (hh mm : Int)
+    (h7L : isNum7 itL.token = true) (hLsep : itL.sep1 = none) (hZ : itZ.token = .OffsetHours)
+    (hsg : sg = 43 ∨ sg = 45) (hd1 : isDigitC h1) (hd2 : isDigitC h2) (hd3 : isDigitC m1) (hd4 : isDigitC m2)
+    (hlh : lexI32 [h1, h2] = some hh) (hhr : 0 ≤ hh ∧ hh ≤ 23)
+    (hlm : lexI32 [m1, m2] = some mm) (hmr : 0 ≤ mm ∧ mm ≤ 59) :
+    ∀ (nums done : List Item) (pre : List Nat) (st : St),
+      f.items = done ++ (nums ++ [itL, itZ]) → (∀ it ∈ nums, isNum7 it.token = true) → (∀ it ∈ nums, GoodSep it) →
+      s = pre ++ textZ F itL [sg, h1, h2, 58, m1, m2] nums → Ascii pre →
+      st.curIdx = done.length → (∀ it, (nums ++ [itL]).head? = some it → st.cur = it ∧ st.tok = it.token) →
+      st.prevIdx = pre.length →
+      ∃ st', parseLoop O f s s.length (textZ F itL [sg, h1, h2, 58, m1, m2] nums) pre.length st = .ok st' ∧
+        st'.data = zData (foldFlds F (nums ++ [itL]) st).data hh mm (st.offNeg || decide (sg = 45))
+  | [], done, pre, st, hf, _, _, hs, hpre, hci, hcur, hprev => by
+    obtain ⟨hc1, hc2⟩ := hcur itL rfl
+    simp only [textZ] at hs ⊢
+    obtain ⟨st', hl, hd⟩ := tail_Z O f F hF s h16 itL itZ done pre st sg h1 h2 m1 m2 hh mm (by rw [hf]; simp) h7L hLsep hZ
+      hs hpre hsg hd1 hd2 hd3 hd4 hlh hhr hlm hmr hci hc1 hc2 hprev
+    refine ⟨st', hl, ?_⟩
+    rw [hd]
+    simp only [List.nil_append, foldFlds, zData, St.data]
+  | it :: rest, done, pre, st, hf, h7, hgood, hs, hpre, hci, hcur, hprev => by
+    obtain ⟨hc1, hc2⟩ := hcur it rfl
+    have h7i := h7 it (by simp)
+    simp only [textZ] at hs ⊢
+    -- the next item: the head of `rest ++ [itL]`
+    cases hrest : rest with
+    | nil =>
+      subst hrest
+      obtain ⟨st1, hl1, hdat1, hci1, hcur1, htok1, hprev1, hasc1⟩ :=
+        item_mid O f F hF s h16 it itL done [itZ] pre (textZ F itL [sg, h1, h2, 58, m1, m2] []) st
+          (by rw [hf]; simp) h7i h7L (hgood it (by simp)) hs hpre hci hc1 hc2 hprev
+      obtain ⟨st', hl, hd⟩ := loop_numsZ O f F hF s h16 itL itZ sg h1 h2 m1 m2 hh mm h7L hLsep hZ hsg hd1 hd2 hd3 hd4
+        hlh hhr hlm hmr [] (done ++ [it]) (pre ++ numText F it ++ it.sepText) st1 (by rw [hf]; simp)
+        (by intro i hi; simp at hi) (by intro i hi; simp at hi) (by rw [hs]; simp [List.append_assoc]) hasc1
+        (by rw [hci1]; simp) (by intro i hi; simp at hi; subst hi; exact ⟨hcur1, htok1⟩) hprev1
+      rw [hl1, hl]
+      refine ⟨st', rfl, ?_⟩
+      rw [hd]
+      have hon : st1.offNeg = st.offNeg := by
+        have := congrArg (fun d => d.2.2.2.2.2.2.2.2.2.2.1) hdat1
+        simpa [St.data, storeFld_offNeg] using this
+      rw [hon]
+      have : (foldFlds F ([] ++ [itL]) st1).data = (foldFlds F ([it] ++ [itL]) st).data := by
+        show (foldFlds F [itL] st1).data = (foldFlds F [itL] (storeFld it.token F st)).data
+        exact foldFlds_data F _ _ _ hdat1
+      rw [this]
+    | cons it2 rest2 =>
+      subst hrest
+      have h7j := h7 it2 (by simp)
+      obtain ⟨st1, hl1, hdat1, hci1, hcur1, htok1, hprev1, hasc1⟩ :=
+        item_mid O f F hF s h16 it it2 done (rest2 ++ [itL, itZ]) pre (textZ F itL [sg, h1, h2, 58, m1, m2] (it2 :: rest2)) st
+          (by rw [hf]; simp) h7i h7j (hgood it (by simp)) hs hpre hci hc1 hc2 hprev
+      obtain ⟨st', hl, hd⟩ := loop_numsZ O f F hF s h16 itL itZ sg h1 h2 m1 m2 hh mm h7L hLsep hZ hsg hd1 hd2 hd3 hd4
+        hlh hhr hlm hmr (it2 :: rest2) (done ++ [it]) (pre ++ numText F it ++ it.sepText) st1 (by rw [hf]; simp)
+        (fun i hi => h7 i (List.mem_cons_of_mem _ hi)) (fun i hi => hgood i (List.mem_cons_of_mem _ hi))
+        (by rw [hs]; simp [List.append_assoc]) hasc1
+        (by rw [hci1]; simp) (by intro i hi; simp at hi; subst hi; exact ⟨hcur1, htok1⟩) hprev1
+      rw [hl1, hl]
+      refine ⟨st', rfl, ?_⟩
+      rw [hd]
+      have hon : st1.offNeg = st.offNeg := by
+        have := congrArg (fun d => d.2.2.2.2.2.2.2.2.2.2.1) hdat1
+        simpa [St.data, storeFld_offNeg] using this
+      rw [hon]
+      have : (foldFlds F (it2 :: rest2 ++ [itL]) st1).data = (foldFlds F (it :: it2 :: rest2 ++ [itL]) st).data := by
+        show (foldFlds F (it2 :: rest2 ++ [itL]) st1).data = (foldFlds F (it2 :: rest2 ++ [itL]) (storeFld it.token F st)).data
+        exact foldFlds_data F _ _ _ hdat1
+      rw [this]
+
+theorem textZ_eq_concat (F : Flds) (itL itZ : Item) (zs : List Nat) (T : Item → List Nat)
+    (hL : T itL = numText F itL) (hZt : T itZ = zs) (hLs : itL.sepText = []) :
+    ∀ (nums : List Item), (∀ it ∈ nums, T it = numText F it) →
+      concatItems T (nums ++ [itL, itZ]) = textZ F itL zs nums
+  | [], _ => by simp [concatItems, textZ, hL, hZt, hLs]
+  | [it], h => by
+    simp only [List.cons_append, List.nil_append, concatItems, textZ, h it (by simp), hL, hZt, hLs, List.append_nil]
+  | it :: it2 :: r, h => by
+    have := textZ_eq_concat F itL itZ zs T hL hZt hLs (it2 :: r) (fun i hi => h i (List.mem_cons_of_mem _ hi))
+    simp only [List.cons_append, concatItems, textZ, h it (by simp)] at this ⊢
+    rw [this]
+
+theorem textZ_shape (F : Flds) (hF : F.InRange) (itL : Item) (h7L : isNum7 itL.token = true)
+    (sg h1 h2 m1 m2 : Nat) (hsg : sg = 43 ∨ sg = 45) (hd1 : isDigitC h1) (hd2 : isDigitC h2) (hd3 : isDigitC m1)
+    (hd4 : isDigitC m2) :
+    ∀ (nums : List Item), (∀ it ∈ nums, isNum7 it.token = true) → (∀ it ∈ nums, GoodSep it) →
+    Ascii (textZ F itL [sg, h1, h2, 58, m1, m2] nums) ∧
+    (∃ c post, isDigitC c ∧ textZ F itL [sg, h1, h2, 58, m1, m2] nums = c :: post) ∧
+    (∃ pre, textZ F itL [sg, h1, h2, 58, m1, m2] nums = pre ++ [m2])
+  | [], _, _ => by
+    obtain ⟨hl2, hdig, _, _⟩ := numText_spec F hF itL h7L
+    simp only [textZ]
+    refine ⟨?_, ?_, ?_⟩
+    · intro x hx
+      simp only [List.mem_append, List.mem_cons, List.not_mem_nil, or_false] at hx
+      unfold isDigitC at hd1 hd2 hd3 hd4
+      rcases hx with hx | hx | hx | hx | hx | hx | hx
+      · exact numText_ascii F hF itL h7L x hx
+      all_goals omega
+    · cases hD : numText F itL with
+      | nil => rw [hD] at hl2; simp at hl2
+      | cons c0 post => exact ⟨c0, post ++ [sg, h1, h2, 58, m1, m2], hdig c0 (by rw [hD]; simp), by simp⟩
+    · exact ⟨numText F itL ++ [sg, h1, h2, 58, m1], by simp⟩
+  | it :: r, h7, hgood => by
+    have h7i := h7 it (by simp)
+    obtain ⟨hl2, hdig, _, _⟩ := numText_spec F hF it h7i
+    obtain ⟨ih1, _, ⟨pre, hlast⟩⟩ := textZ_shape F hF itL h7L sg h1 h2 m1 m2 hsg hd1 hd2 hd3 hd4 r
+      (fun i hi => h7 i (List.mem_cons_of_mem _ hi)) (fun i hi => hgood i (List.mem_cons_of_mem _ hi))
+    obtain ⟨a, hsa, _, ha128, hsep2⟩ := hgood it (by simp)
+    have hsepA : Ascii it.sepText := by
+      intro x hx
+      unfold Item.sepText at hx
+      rcases hsep2 with hs2 | ⟨b, hs2, _, hb128⟩
+      · rw [hsa, hs2] at hx; simp at hx; omega
+      · rw [hsa, hs2] at hx; simp at hx; omega
+    simp only [textZ]
+    refine ⟨?_, ?_, ?_⟩
+    · intro x hx
+      simp only [List.mem_append] at hx
+      rcases hx with (hx | hx) | hx
+      · exact numText_ascii F hF it h7i x hx
+      · exact hsepA x hx
+      · exact ih1 x hx
+    · cases hD : numText F it with
+      | nil => rw [hD] at hl2; simp at hl2
+      | cons c0 post =>
+        exact ⟨c0, post ++ (it.sepText ++ textZ F itL [sg, h1, h2, 58, m1, m2] r), hdig c0 (by rw [hD]; simp), by simp⟩
+    · exact ⟨numText F it ++ it.sepText ++ pre, by rw [hlast]; simp [List.append_assoc]⟩
+
+/-- PARSE BACK with a time-zone offset (the layout of RFC 3339).  `f`: numeric items with separators as in
+    `parse_back_num7`, then a last numeric item WITHOUT separator, then a final non-optional `%z`; all seven
+    numeric tokens present.  `e`: any canonical UTC epoch in range, `off`: any canonical offset of whole
+    minutes within ±23:59 such that the shifted epoch is in range with year 0000–9999.  Then
+    `Formatter::with_timezone(e, off, f)` prints a text that `f.parse` reads back as exactly `e`. -/
+theorem parse_back_numZ (O : Oracles) (f : Format) (e : Ep) (off : Dur) (hutc : e.ts = TS.UTC)
+    (hd : e.dur.Canon) (hre : Cal.InCal e.dur.val)
+    (hoc : off.Canon) (hom : off.val % 60000000000 = 0) (hor : -86400000000000 < off.val ∧ off.val < 86400000000000)
+    (hr : Cal.InCal (e.add off).dur.val)
+    (hy : ∀ y mo dd h mi s ns, Cal.computeGregorian (e.add off).dur e.ts = .ok (y, mo, dd, h, mi, s, ns) → 0 ≤ y ∧ y ≤ 9999)
+    (nums : List Item) (itL itZ : Item) (hitems : f.items = nums ++ [itL, itZ]) (h16 : f.items.length ≤ 16)
+    (h7 : ∀ it ∈ nums, isNum7 it.token = true ∧ it.optional = false) (hgood : ∀ it ∈ nums, GoodSep it)
+    (h7L : isNum7 itL.token = true) (hLopt : itL.optional = false) (hLs1 : itL.sep1 = none) (hLs2 : itL.sep2 = none)
+    (hZ : itZ.token = .OffsetHours) (hZopt : itZ.optional = false)
+    (hfull : ∀ t, isNum7 t = true → t ∈ (nums ++ [itL]).map (·.token)) :
+    ∃ text, formatterOutput O f e (some off) = .ok text ∧ formatParse O f text = .ok e := by
+  -- the shifted epoch
+  have hrange := canon_range e.dur hd
+  unfold DMIN DMAX at hrange; simp only [NPCs_eq] at hrange
+  unfold Cal.InCal at hre
+  have hsh := Cal.add_val e.dur off hd hoc (by unfold Cal.InR; omega)
+  have hshd : (e.add off).dur = Dur.add e.dur off := rfl
+  have hsts : (e.add off).ts = e.ts := rfl
+  rw [hshd] at hr hy
+  -- its fields
+  obtain ⟨y, mo, dd, h, mi, s, ns, hg, hmfg⟩ := Cal.from_compute (Dur.add e.dur off) e.ts hsh.1 hr
+  obtain ⟨y', mo', dd', h', mi', s', ns', hg', hval, _, _, a1, a2, a3, a4, a5, a6, a7, a8, _⟩ :=
+    Cal.computeGregorian_spec (Dur.add e.dur off) e.ts hsh.1 hr
+  rw [hg] at hg'
+  simp only [Res.ok.injEq, Prod.mk.injEq] at hg'
+  obtain ⟨rfl, rfl, rfl, rfl, rfl, rfl, rfl⟩ := hg'
+  have hyr := hy y mo dd h mi s ns hg
+  have hv' := (Cal.validDate_iff _).mp hval
+  simp only at hv'
+  have hml := Cal.monthLen_range y mo hv'.1 hv'.2.1
+  have hF : (Flds.mk y mo dd h mi s ns).InRange := by
+    unfold Flds.InRange; simp only; omega
+  -- the offset text
+  obtain ⟨hh, mm, hh0, hh1, mm0, mm1, habs, hzt⟩ := offsetText_shape off hoc hom hor
+  obtain ⟨h1, h2, hfh, hdh1, hdh2, hlh⟩ := two_digits hh ⟨hh0, by omega⟩
+  obtain ⟨m1, m2, hfm, hdm1, hdm2, hlm⟩ := two_digits mm ⟨mm0, by omega⟩
+  obtain ⟨sg, hsgv, hsg⟩ : ∃ sg : Nat, (if off.val < 0 then [45] else [43]) = [sg] ∧ (sg = 45 ↔ off.val < 0) := by
+    by_cases hn : off.val < 0
+    · exact ⟨45, by rw [if_pos hn], by simp [hn]⟩
+    · exact ⟨43, by rw [if_neg hn], by simp [hn]⟩
+  have hsg' : sg = 43 ∨ sg = 45 := by
+    by_cases hn : off.val < 0
+    · rw [if_pos hn] at hsgv; simp at hsgv; omega
+    · rw [if_neg hn] at hsgv; simp at hsgv; omega
+  rw [hsgv, hfh, hfm] at hzt
+  simp only [List.cons_append, List.nil_append] at hzt
+  -- the formatter's text
+  obtain ⟨_, _, _, _, _, _, _, hdoyex⟩ := dayOfYearInt_spec (e.add off) hsh.1 hr
+  obtain ⟨doy, hdoy⟩ : ∃ doy, dayOfYearInt (e.add off) = .ok doy := ⟨_, hdoyex.2⟩
+  have hfne : f.items ≠ [] := by rw [hitems]; simp
+  have htext := formatterFmt_concat O f (e.add off) off y mo dd h mi s ns _ doy hfne
+    (fun it hi => by
+      rw [hitems] at hi
+      rcases List.mem_append.mp hi with hi | hi
+      · exact ⟨num7_supported _ (h7 it hi).1, (h7 it hi).2⟩
+      · simp at hi
+        rcases hi with hi | hi
+        · subst hi; exact ⟨num7_supported _ h7L, hLopt⟩
+        · subst hi; exact ⟨by rw [hZ]; rfl, hZopt⟩) hg hzt hdoy
+  have hLst : itL.sepText = [] := by unfold Item.sepText; rw [hLs1, hLs2]; rfl
+  have hcc := textZ_eq_concat ⟨y, mo, dd, h, mi, s, ns⟩ itL itZ [sg, h1, h2, 58, m1, m2]
+    (fun it => tokBytes it.token y mo dd h mi s ns (e.add off) [sg, h1, h2, 58, m1, m2] doy)
+    (tokBytes_num7 itL.token h7L _ _ _ _ _ _ _ _ _ _ _ _ _) (by simp only [hZ, tokBytes]) hLst nums
+    (fun it hi => tokBytes_num7 it.token (h7 it hi).1 _ _ _ _ _ _ _ _ _ _ _ _ _)
+  rw [hitems, hcc] at htext
+  refine ⟨textZ ⟨y, mo, dd, h, mi, s, ns⟩ itL [sg, h1, h2, 58, m1, m2] nums, ?_, ?_⟩
+  · unfold formatterOutput; exact htext
+  -- the text is ASCII and is not changed by `trim`
+  obtain ⟨hasc, ⟨c0, post, hc0, hfirst⟩, ⟨pre, hlastc⟩⟩ :=
+    textZ_shape ⟨y, mo, dd, h, mi, s, ns⟩ hF itL h7L sg h1 h2 m1 m2 hsg' hdh1 hdh2 hdm1 hdm2 nums
+      (fun it hi => (h7 it hi).1) hgood
+  have htrim : trim (textZ ⟨y, mo, dd, h, mi, s, ns⟩ itL [sg, h1, h2, 58, m1, m2] nums) =
+      textZ ⟨y, mo, dd, h, mi, s, ns⟩ itL [sg, h1, h2, 58, m1, m2] nums := by
+    apply trim_id
+    · intro c hc; rw [hfirst] at hc; simp at hc; subst hc; exact digit_not_ws _ hc0
+    · intro c hc; rw [hlastc] at hc; simp at hc; subst hc; exact digit_not_ws _ hdm2
+  -- the loop
+  obtain ⟨it0, rest0, hhead⟩ : ∃ it0 rest0, f.items = it0 :: rest0 ∧ (nums ++ [itL]).head? = some it0 := by
+    cases hn : nums with
+    | nil => exact ⟨itL, [itZ], by rw [hitems, hn]; simp, by simp⟩
+    | cons a r => exact ⟨a, r ++ [itL, itZ], by rw [hitems, hn]; simp, by simp⟩
+  unfold formatParse
+  rw [hhead.1]
+  simp only
+  rw [htrim, byteLen_ascii _ hasc]
+  obtain ⟨st', hl, hdat⟩ := loop_numsZ O f ⟨y, mo, dd, h, mi, s, ns⟩ hF
+    (textZ ⟨y, mo, dd, h, mi, s, ns⟩ itL [sg, h1, h2, 58, m1, m2] nums) h16 itL itZ sg h1 h2 m1 m2 hh mm h7L hLs1 hZ hsg'
+    hdh1 hdh2 hdm1 hdm2 hlh ⟨hh0, hh1⟩ hlm ⟨mm0, mm1⟩ nums [] [] (St.init it0) (by simp [hitems])
+    (fun it hi => (h7 it hi).1) hgood (by simp) (by intro c hc; simp at hc) rfl
+    (by intro i hi; rw [hhead.2] at hi; simp at hi; subst hi; exact ⟨rfl, rfl⟩) rfl
+  simp only [List.length_nil] at hl
+  rw [hl]
+  simp only
+  rw [foldFlds_data_eq] at hdat
+  rw [if_pos (hfull .Year rfl), if_pos (hfull .Month rfl), if_pos (hfull .Day rfl), if_pos (hfull .Hour rfl),
+    if_pos (hfull .Minute rfl), if_pos (hfull .Second rfl), if_pos (hfull .Subsecond rfl)] at hdat
+  have hfin : finish st' = finish ⟨y, mo, dd, h, mi, s, ns, hh, mm, TS.UTC, decide (sg = 45), none, none, 0, 0, it0, it0.token, it0⟩ :=
+    finish_data _ _ (by rw [hdat]; simp [zData, St.data, St.init])
+  rw [hfin]
+  unfold finish buildEpoch
+  simp only
+  have u1 : toU8 mo = some mo := by unfold toU8; rw [if_pos (by omega)]
+  have u2 : toU8 dd = some dd := by unfold toU8; rw [if_pos (by omega)]
+  have u3 : toU8 h = some h := by unfold toU8; rw [if_pos (by omega)]
+  have u4 : toU8 mi = some mi := by unfold toU8; rw [if_pos (by omega)]
+  have u5 : toU8 s = some s := by unfold toU8; rw [if_pos (by omega)]
+  have u6 : toU32 ns = some ns := by unfold toU32; rw [if_pos (by omega)]
+  rw [u1, u2, u3, u4, u5, u6]
+  simp only
+  rw [← hutc, hmfg]
+  simp only [Bool.false_eq_true, if_false]
+  -- the time zone correction
+  have t1 := Cal.unitMul_val Cal.NPH hh (by right; right; right; left; rfl) (by omega)
+  have t2 := Cal.unitMul_val Cal.NPMIN mm (by right; right; left; rfl) (by omega)
+  have hN1 : Cal.NPH = 3600000000000 := rfl
+  have hN2 : Cal.NPMIN = 60000000000 := rfl
+  rw [hN1] at t1; rw [hN2] at t2
+  have tz := Cal.add_val _ _ t1.1 t2.1 (by unfold Cal.InR; rw [t1.2, t2.2]; omega)
+  rw [t1.2, t2.2] at tz
+  rw [hN1, hN2]
+  unfold Cal.InCal at hr
+  by_cases hneg : off.val < 0
+  · have hs45 : sg = 45 := hsg.mpr hneg
+    rw [if_pos (by simp [hs45])]
+    rw [if_pos hneg] at habs
+    have hfinal := Cal.add_val (Dur.add e.dur off) _ hsh.1 tz.1 (by unfold Cal.InR; rw [hsh.2, tz.2]; omega)
+    have : Dur.add (Dur.add e.dur off) ((Dur.unitMulI64 3600000000000 hh).add (Dur.unitMulI64 60000000000 mm)) = e.dur :=
+      canon_unique _ _ hfinal.1 hd (by rw [hfinal.2, hsh.2, tz.2]; omega)
+    rw [this]
+  · have hs45 : ¬ sg = 45 := fun h => hneg (hsg.mp h)
+    rw [if_neg (by simp [hs45])]
+    rw [if_neg hneg] at habs
+    obtain ⟨r, hr1, hr2, hr3⟩ := neg_spec _ tz.1
+    rw [hr1]
+    simp only
+    rw [tz.2, clampD_mid (by omega) (by omega)] at hr3
+    have hfinal := Cal.add_val (Dur.add e.dur off) r hsh.1 hr2 (by unfold Cal.InR; rw [hsh.2, hr3]; omega)
+    have : Dur.add (Dur.add e.dur off) r = e.dur :=
+      canon_unique _ _ hfinal.1 hd (by rw [hfinal.2, hsh.2, hr3]; omega)
+    rw [this]
+
+/-- the class of `parse_back_numZ` as a decidable predicate -/
+def numZClass (f : Format) : Bool :=
+  decide (2 ≤ f.items.length) && decide (f.items.length ≤ 16) &&
+  (match f.items.getLast? with
+   | some l => l.token == .OffsetHours && !l.optional
+   | none => false) &&
+  (match f.items.dropLast.getLast? with
+   | some l => isNum7 l.token && !l.optional && l.sep1.isNone && l.sep2.isNone
+   | none => false) &&
+  f.items.dropLast.dropLast.all (fun it => isNum7 it.token && !it.optional && goodSepB it) &&
+  [Token.Year, .Month, .Day, .Hour, .Minute, .Second, .Subsecond].all
+    (fun t => f.items.dropLast.any (fun it => it.token == t))
+
+theorem parse_back_numZClass (O : Oracles) (f : Format) (e : Ep) (off : Dur) (hc : numZClass f = true)
+    (hutc : e.ts = TS.UTC) (hd : e.dur.Canon) (hre : Cal.InCal e.dur.val)
+    (hoc : off.Canon) (hom : off.val % 60000000000 = 0) (hor : -86400000000000 < off.val ∧ off.val < 86400000000000)
+    (hr : Cal.InCal (e.add off).dur.val)
+    (hy : ∀ y mo dd h mi s ns, Cal.computeGregorian (e.add off).dur e.ts = .ok (y, mo, dd, h, mi, s, ns) → 0 ≤ y ∧ y ≤ 9999) :
+    ∃ text, formatterOutput O f e (some off) = .ok text ∧ formatParse O f text = .ok e := by
+  unfold numZClass at hc
+  simp only [Bool.and_eq_true, List.all_eq_true, decide_eq_true_eq] at hc
+  obtain ⟨⟨⟨⟨⟨h1, h2⟩, h3⟩, h4⟩, h5⟩, h6⟩ := hc
+  have hne : f.items ≠ [] := by intro h; rw [h] at h1; simp at h1
+  obtain ⟨front, itZ, hitems⟩ := exists_snoc f.items hne
+  have hfne : front ≠ [] := by intro h; rw [hitems, h] at h1; simp at h1
+  obtain ⟨nums, itL, hfront⟩ := exists_snoc front hfne
+  have hdl : f.items.dropLast = nums ++ [itL] := by rw [hitems, hfront]; simp
+  have hgl : f.items.getLast? = some itZ := by rw [hitems]; simp
+  rw [hgl] at h3
+  rw [hdl] at h4 h5 h6
+  have hdl2 : (nums ++ [itL]).dropLast = nums := by simp
+  have hgl2 : (nums ++ [itL]).getLast? = some itL := by simp
+  rw [hgl2] at h4
+  rw [hdl2] at h5
+  simp only [Bool.and_eq_true, beq_iff_eq, Option.isNone_iff_eq_none, Bool.not_eq_true'] at h3 h4
+  apply parse_back_numZ O f e off hutc hd hre hoc hom hor hr hy nums itL itZ (by rw [hitems, hfront]; simp) h2
+  · intro it hi
+    have := h5 it hi
+    exact ⟨this.1.1, by simpa using this.1.2⟩
+  · intro it hi
+    exact goodSepB_iff it (h5 it hi).2
+  · exact h4.1.1.1
+  · exact h4.1.1.2
+  · exact h4.1.2
+  · exact h4.2
+  · exact h3.1
+  · exact h3.2
+  · intro t ht
+    have : t ∈ [Token.Year, .Month, .Day, .Hour, .Minute, .Second, .Subsecond] := by
+      cases t <;> simp [isNum7] at ht <;> simp
+    have := h6 t this
     simp only [List.any_eq_true, beq_iff_eq] at this
     obtain ⟨it, hi, he⟩ := this
     exact List.mem_map.mpr ⟨it, hi, he⟩
